@@ -9,6 +9,8 @@ pub struct Known {
     pub class: String,
     pub site: String,
     pub what: String,
+    /// optional glob over the violation's detail text (panic message etc.); empty = any
+    pub detail: String,
     /// "known" suppresses the alarm; "fixed" suppresses nothing (kept as a record only)
     pub status: String,
 }
@@ -51,14 +53,14 @@ pub fn load(path: &str) -> Vec<Known> {
     if let Some(a) = v.get("findings").and_then(|f| f.as_array()) {
         for f in a {
             let g = |k: &str| f.get(k).and_then(|x| x.as_str()).unwrap_or("").to_string();
-            out.push(Known { property: g("property"), scenario: g("scenario"), class: g("class"), site: g("site"), what: g("what"), status: g("status") });
+            out.push(Known { property: g("property"), scenario: g("scenario"), class: g("class"), site: g("site"), what: g("what"), detail: g("detail"), status: g("status") });
         }
     }
     out
 }
 
-pub fn matches<'a>(known: &'a [Known], property: &str, scenario: &str, class: &str, site: &str) -> Option<&'a Known> {
-    known.iter().find(|k| k.status == "known" && k.property == property && glob(&k.scenario, scenario) && glob(&k.class, class) && glob(&k.site, site))
+pub fn matches<'a>(known: &'a [Known], property: &str, scenario: &str, class: &str, site: &str, detail: &str) -> Option<&'a Known> {
+    known.iter().find(|k| k.status == "known" && k.property == property && glob(&k.scenario, scenario) && glob(&k.class, class) && glob(&k.site, site) && (k.detail.is_empty() || glob(&k.detail, detail)))
 }
 
 #[cfg(test)]
